@@ -612,3 +612,53 @@ impl StateBuilder {
 		}))
 	}
 }
+
+/// Verification hooks (read-only accessors), compiled only with `--cfg jrsonnet_verif`.
+///
+/// Off by default; nothing here changes evaluator behaviour.
+#[cfg(jrsonnet_verif)]
+pub mod verif {
+	use crate::{State, STATE};
+
+	/// Current frame depth of this thread
+	#[must_use]
+	pub fn stack_depth() -> usize {
+		crate::stack::verif_depth_and_limit().0
+	}
+	/// Current frame limit of this thread (absolute)
+	#[must_use]
+	pub fn stack_limit() -> usize {
+		crate::stack::verif_depth_and_limit().1
+	}
+	/// Number of objects whose assertions are currently marked as running
+	#[must_use]
+	pub fn running_assertions() -> usize {
+		crate::obj::verif_running_assertions()
+	}
+	/// Is some state entered on this thread
+	#[must_use]
+	pub fn state_entered() -> bool {
+		STATE.with_borrow(Option::is_some)
+	}
+
+	#[derive(Debug, Clone, Copy, PartialEq, Eq, Default)]
+	pub struct FileCacheSummary {
+		pub entries: usize,
+		pub parsed: usize,
+		pub evaluated: usize,
+		pub evaluating: usize,
+	}
+	/// Summary of the import cache of the state
+	#[must_use]
+	pub fn file_cache_summary(state: &State) -> FileCacheSummary {
+		let cache = state.0.file_cache.borrow();
+		let mut out = FileCacheSummary::default();
+		for file in cache.values() {
+			out.entries += 1;
+			out.parsed += usize::from(file.parsed.is_some());
+			out.evaluated += usize::from(file.evaluated.is_some());
+			out.evaluating += usize::from(file.evaluating);
+		}
+		out
+	}
+}
